@@ -1556,6 +1556,7 @@ class NonFinite:
     """an infinity / NaN constant in fp mode 'real' (reals have none): may be stored, loaded, compared; arithmetic on it is unsupported"""
     def __init__(s, x): s.x = x
     def __repr__(s): return 'NonFinite(%r)' % s.x
+    def __neg__(s): return NonFinite(-s.x)          # -inf / -nan: still a non-finite constant
 class _Undecided:
     def eval(s, *a, **k): raise z3.Z3Exception('no model')
 UNDECIDED = _Undecided()
